@@ -104,17 +104,13 @@ theorem shape_errs (p : Plugin) (r : Rec) (hs : Shape p r) :
   · rw [hh, he, hok]
     cases hmid <;> rcases heb with rfl | rfl <;> simp [hx]
 
-/-- the error output names the plugin unless its only failure is the goodbye call. -/
-theorem shape_named (p : Plugin) (r : Rec) (hs : Shape p r) :
-    namedIn r = true ↔ (r.hsOk = false ∨ HEvent.recvErr .generate ∈ r.h ∨ ErrKind.dotdot ∈ r.errs ∨
-      p.exitCode ≠ 0) := by
-  have hx : exitErr p = if p.exitCode = 0 then [] else [ErrKind.exitStatus] := rfl
+/-- every error message carries the plugin's name: the error output names a plugin exactly
+when some error is recorded for it. -/
+theorem named_iff_errs (r : Rec) : namedIn r = true ↔ r.errs ≠ [] := by
   unfold namedIn
-  rcases hs with ⟨e0, he0, hok, hh, he⟩ | ⟨mid, me, hmid, eb, heb, hok, hh, he⟩
-  · rw [hh, he, hok]; simp [ErrKind.names]
-  · rw [hh, he, hok, hx]
-    cases hmid <;> rcases heb with rfl | rfl <;> by_cases hc : p.exitCode = 0 <;>
-      simp [ErrKind.names, hc]
+  cases r.errs with
+  | nil => simp
+  | cons e es => simp [ErrKind.names]
 
 /-- a plugin has failed, as far as the host can tell. -/
 def PluginFailed (p : Plugin) (r : Rec) : Prop :=
@@ -127,5 +123,9 @@ theorem shape_failed (p : Plugin) (r : Rec) (hs : Shape p r) : r.errs ≠ [] ↔
   · rw [hh, he, hok]; simp
   · rw [hh, he, hok, hx]
     cases hmid <;> rcases heb with rfl | rfl <;> by_cases hc : p.exitCode = 0 <;> simp [hc]
+
+/-- the error output names a plugin iff that plugin failed. -/
+theorem shape_named (p : Plugin) (r : Rec) (hs : Shape p r) : namedIn r = true ↔ PluginFailed p r :=
+  (named_iff_errs r).trans (shape_failed p r hs)
 
 end ThriftVerif.Proto
